@@ -315,6 +315,17 @@ def run_c13(tier, seed):
         steps = [(0, "f" + L.hx(G.request_with_nulls(nm, a))) for nm, a in sent[0]] + [(0, "e")]
         cases.append(dict(line=L.mkcase(steps, pw=pw, conns=1, default="mb(76)", trace=False, tls=tls), pw=pw, sent=sent, par=False,
                           desc=("pw " if pw else "") + "[TLS connection] c0: " + " ; ".join(req_desc(n, a) for n, a in sent[0])[:300]))
+    # an AUTH that is REFUSED changes nothing: on a server without a password (every connection is authorized from the start) whose
+    # authenticators include a certificate rule, a plain connection's AUTH is refused by that rule without an error value - the
+    # connection stays authorized.  (The oracle here is direct: every later request reaches the handler as authorized.)
+    for k in range(40 if tier == "quick" else 600):
+        hist = [c13_request(rng, None) for _ in range(rng.randint(1, 3))] + [("AUTH", rng.choice([[b"x"], [b"alice", b"x"], [b""], [b"secret"]]))] + \
+               [c13_request(rng, None) for _ in range(rng.randint(1, 3))]
+        if k % 3 == 0:
+            hist += [("AUTH", [b"y"]), ("GET", [b"a"])]
+        steps = [(0, "f" + L.hx(G.request_with_nulls(nm, a))) for nm, a in hist] + [(0, "e")]
+        cases.append(dict(line=L.mkcase(steps, pw=None, conns=1, default="mb(76)", trace=False, rule=b"trusted-client"), pw=None, sent=[hist], par=False, refused_auth=True,
+                          desc="[plain connection, certificate rule, no password] c0: " + " ; ".join(req_desc(n, a) for n, a in hist)[:300]))
     # sequential reuse: a connection ends, the next one starts afterwards and must see the defaults (db 0, no user data)
     for _ in range(60 if tier == "quick" else 600):
         pw = rng.choice([None, None, b"secret"])
@@ -349,7 +360,17 @@ def run_c13(tier, seed):
         c["iobs"], c["mobs"] = L.Obs(a), L.Obs(m)
         if not basic_monitors(chk, "C13", c):
             continue
-        err = monitor_scoped(c["pw"], c["sent"], c["iobs"])
+        if c.get("refused_auth"):
+            err = None
+            for e in c["iobs"].conns[0][1]:
+                if e.startswith("C:") and e.split(":", 5)[2] != "1":
+                    err = "connection 0: after a refused AUTH the handler saw the connection as NOT authorized (%s) although the server requires no password" % e.split(":", 5)[5][:60]
+                    break
+                if e.startswith("W@") and b"not auth" in bytes.fromhex(e.split(":", 1)[1]).lower():
+                    err = "connection 0: a request was refused as unauthorized after a refused AUTH although the server requires no password"
+                    break
+        else:
+            err = monitor_scoped(c["pw"], c["sent"], c["iobs"])
         if err:
             chk.violation("scope:" + re.sub(r"[^A-Za-z ]", "", err)[:50], "%s :: %s" % (err, c["desc"]), dict(case=c["line"], desc=c["desc"], impl=c["iobs"].raw[:3000]))
             continue
@@ -526,8 +547,30 @@ def run_c07(tier, seed):
                 add(handler, off, "offender stores 4000 bytes, stops reading (%d bytes of buffer left) and pipelines %d x GET + PING; the witness works meanwhile" % (cap, ngets),
                     end=rng.choice(["x", "r"]), end_after_witness=True,
                     extra_tbl={"Set:" + L.hx(b"bigk"): "ms(4f4b)", "Get:" + L.hx(b"bigk"): "mb(" + L.hx(bigv) + ")"})
+    # (c') the WITNESS is the one in the middle of receiving a large reply (it reads slowly) while the other connection has requests
+    # with large, different replies served: what the witness finally reads is its own value, byte for byte
+    witv = bytes([119]) * 3000 + bytes((i * 7 + 1) % 251 for i in range(5000))
+    pooled = []
+    for handler in ("example", "double"):
+        for cap in (1, 100, 4096):
+            for noff in (2, 6):
+                offv = [bytes([65 + j]) * (7000 + 111 * j) for j in range(noff)]
+                steps = [(1, "f" + L.hx(RB("SET", [b"witbig", witv])))] + [(0, "f" + L.hx(RB("SET", [b"off%d" % j, v]))) for j, v in enumerate(offv)]
+                steps += [(1, "s%d" % cap), (1, "g" + L.hx(RB("GET", [b"witbig"])))]
+                steps += [(0, "f" + L.hx(RB("GET", [b"off%d" % j]))) for j in range(noff)] + [(0, "f" + L.hx(RB("MGET", [b"off0", b"nokey"])))]
+                steps += [(1, "u"), (1, "f" + L.hx(RB("PING", []))), (0, "e"), (1, "e")]
+                tbl = None
+                if handler != "example":
+                    tbl = {"Set:" + L.hx(b"witbig"): "ms(4f4b)", "Get:" + L.hx(b"witbig"): "mb(" + L.hx(witv) + ")"}
+                    for j, v in enumerate(offv):
+                        tbl["Set:" + L.hx(b"off%d" % j)] = "ms(4f4b)"; tbl["Get:" + L.hx(b"off%d" % j)] = "mb(" + L.hx(v) + ")"
+                pooled.append(dict(line=L.mkcase(steps, conns=2, tbl=tbl, default="mn" if handler != "example" else None, handler=handler, trace=False), handler=handler, nocorr=True,
+                                   expect=[b"+OK\r\n", b"$%d\r\n" % len(witv) + witv + b"\r\n", b"+PONG\r\n"],
+                                   desc="[%s] the witness is %d bytes into receiving an 8000-byte reply when the other connection gets %d replies of 7-8 KB; then the witness reads on" % (handler, cap, noff)))
+    import copy, os
+    pooled_one_p = [dict(copy.deepcopy(c), desc=c["desc"] + " [GOMAXPROCS=1]") for c in pooled]
     lines = [c["line"] for c in cases]
-    good = run_cases(chk, cases, shards=14)
+    good = run_cases(chk, cases, shards=14) + run_cases(chk, pooled, shards=4) + run_cases(chk, pooled_one_p, shards=2, henv=dict(os.environ, GOMAXPROCS="1"))
     validated, distinct, by = 0, set(), {"example": 0, "double": 0}
     for c in good:
         o = c["iobs"]
